@@ -10,6 +10,10 @@ and after operation histories (query, read-and-store, rename, clear, add, update
 
 Every database is described by a JSON `spec` (files with their column names, in-memory series, history of operations) and is
 rebuilt from it on replay under the same temporary root, so that keys and patterns are identical.
+
+Round 3: name families (one quantity in several units / several quantities in one unit, all names bracketed), purely in-memory
+databases, new names of rename / add drawn from the same family; clause "'*' selects all"; an exception of a listing is a failing
+clause, not a harness error.  This exposed F23 (common path cut inside a unit bracket) and F24 (relative + absolute keys mixed).
 """
 import fnmatch as pyfnmatch
 import os
@@ -22,14 +26,21 @@ from .. import core
 from ..dbutil import Files, err_enum, hx, hxlist, unhx, unhxlist
 
 RULE = ("seeded key sets: 1-3 generated files in 1-2 directories (incl. same file name in a sub-directory, same channel names in "
-        "several files) with 1-4 series each, names from the property's alphabet incl. unit brackets with '/', optionally in-memory "
-        "series; optionally a history of 1-3 operations (query / get+store / getm+store / rename / clear / add / update / load) before "
+        "several files) with 1-4 series each, names from the property's alphabet incl. unit brackets with '/' — from a fixed pool or "
+        "composed as quantity+unit (1-2 quantities x 2-4 units: every name identical in front of the bracket, units agreeing up to a "
+        "'/'), optionally in-memory series, also purely in-memory databases; optionally a history of 1-3 operations (query / get+store / getm+store / rename / clear / add / update / load) before "
         "the queries; patterns: names=None, every name, full key, listed relative name, fragments with * and ?, pattern lists of 2-3 "
         "(also in non-registration order); non-trivial = pattern with a special character or wildcard; distinct by (key set, pattern)")
 
 POOL = ["a", "b", "Tension [kN/m]", "Moment [kNm]", "x y", "Acc(1)", "z^2", "m_1-2.5", "T [kN/m]", "Heave (m)", "[raw]", "a b [m/s^2]",
         "Force", "force_2", "A", "p[0]", "q]"]
 NEWNAMES = POOL + ["renamed_series", "Sway (lf) [m]", "Surge^2 [m^2]", "added_1"]
+# names composed as <quantity><separator><unit>: the same quantity in several units, several quantities in one unit; a database whose
+# names ALL carry a unit bracket (the bracket-aware path helpers and the common path then see nothing but bracketed keys)
+STEMS = ["Tension", "acc(1)", "a", "x y", "Heave", "m_1-2.5", "z^2", "T", "Moment.y", "Line-1 force"]
+UNITS = ["[kN]", "[N]", "[kN/m]", "[N/m]", "[m/s^2]", "[g]", "[-]", "[m]", "[deg]", "[rad/s]", "[m^2 s/rad]", "(m)", "[kNm]"]
+# units that agree up to a '/' inside the bracket (kept apart: F23)
+UNITS_SLASH = ["[m/s]", "[m/s^2]", "[kN/m]", "[kN/m^2]", "[deg/s]", "[deg/s^2]"]
 LAYOUTS = [["f.pkl"], ["f.pkl", "g.pkl"], ["f.pkl", "sub/f.pkl"], ["d1/f.pkl", "d2/f.pkl", "d1/g.pkl"]]
 OP_ERRORS = (KeyError, ValueError, LookupError, TypeError)
 
@@ -43,19 +54,42 @@ class Gen:
     def __init__(self, rng):
         self.rng = rng
         self.ndir = 0
+        self.spare = []          # further names of the family the last spec was drawn from (new names for rename / add)
 
     def newdir(self):
         self.ndir += 1
         return "c%04d%02d" % (self.ndir, self.rng.randrange(100))
 
+    def family(self):
+        """a pool of composed names: 1-2 quantities x 2-4 units (one quantity: every name identical in front of the bracket)"""
+        rng = self.rng
+        stems = rng.sample(STEMS, rng.choice([1, 1, 2]))
+        units = rng.sample(UNITS_SLASH if rng.random() < 0.2 else UNITS, rng.choice([2, 3, 4]))
+        sep = rng.choice([" ", " ", "", "_"])
+        names = [s + sep + u for s in stems for u in units]
+        if rng.random() < 0.2:
+            names.append(rng.choice(stems))                       # the bare quantity next to its unit variants
+        rng.shuffle(names)
+        self.spare = [s + sep + u for s in stems for u in UNITS + UNITS_SLASH if s + sep + u not in names]
+        return names
+
     def spec(self, seed0=0, mem=True):
         rng = self.rng
+        if rng.random() < 0.35:
+            return self.spec_from(self.family(), seed0, mem)
+        self.spare = []
+        return self.spec_from(POOL, seed0, mem)
+
+    def spec_from(self, POOL, seed0, mem):
+        rng = self.rng
+        if mem and rng.random() < 0.12:                           # purely in-memory database
+            return dict(files=[], mem=rng.sample(POOL, min(len(POOL), rng.choice([2, 3, 4]))))
         nfiles = rng.choice([1, 1, 2, 3])
         layout = rng.choice(LAYOUTS)[:nfiles]
         one_dir = rng.random() < 0.5                  # the layout inside one directory / every file in a directory of its own
         same_names = rng.random() < 0.4               # the same channels in every file (case files of one model)
         d0 = self.newdir()
-        base = rng.sample(POOL, rng.choice([2, 3, 4]))
+        base = rng.sample(POOL, min(len(POOL), rng.choice([2, 3, 4])))
         files = []
         for i, rel in enumerate(layout):
             d = d0 if one_dir else self.newdir()
@@ -64,16 +98,24 @@ class Gen:
                 if rng.random() < 0.3:
                     rng.shuffle(names)
             else:
-                names = rng.sample(POOL, rng.choice([1, 1, 2, 3, 4]))
+                names = rng.sample(POOL, min(len(POOL), rng.choice([1, 1, 2, 3, 4])))
             files.append([os.path.join(d, rel), names, seed0 + i])
         spec = dict(files=files)
         if mem and rng.random() < 0.25:
             spec["mem"] = rng.sample(POOL, rng.choice([1, 2]))
         return spec
 
+    def allnames(self, spec):
+        return [n for f in spec["files"] for n in f[1]] + list(spec.get("mem", []))
+
     def history(self, spec):
         rng = self.rng
         ops = []
+        spare = list(self.spare)
+
+        def newname():
+            return rng.choice(spare) if spare and rng.random() < 0.6 else rng.choice(NEWNAMES)
+
         for _ in range(rng.choice([1, 1, 2, 3])):
             kind = rng.choice(["query", "get", "get", "getm", "rename", "rename", "clear", "add", "update", "load"])
             if kind == "query":
@@ -81,14 +123,14 @@ class Gen:
             elif kind == "get":
                 ops.append(["get", rng.randrange(8), rng.random() < 0.8])
             elif kind == "getm":
-                nm = rng.choice(rng.choice(spec["files"])[1])
+                nm = rng.choice(self.allnames(spec))
                 ops.append(["getm", rng.choice(["*", nm, nm[:1] + "*", [nm[:1] + "*", "*"]]), rng.random() < 0.8])
             elif kind == "rename":
-                ops.append(["rename", rng.randrange(8), rng.choice(NEWNAMES)])
+                ops.append(["rename", rng.randrange(8), newname()])
             elif kind == "clear":
                 ops.append(["clear", rng.randrange(8)])
             elif kind == "add":
-                ops.append(["add", rng.choice(NEWNAMES), 2000.0 + len(ops)])
+                ops.append(["add", newname(), 2000.0 + len(ops)])
             elif kind == "update":
                 ops.append(["update", self.spec(seed0=10 * (len(ops) + 1)), rng.random() < 0.5])
             else:
@@ -182,9 +224,19 @@ def short(k):
     return k.split(".pkl/")[-1] if ".pkl/" in k else os.path.basename(k)
 
 
+def relative_names(db):
+    """listed relative names, or the error kind when the listing itself raises"""
+    try:
+        return db.list(display=False, relative=True)
+    except Exception as e:
+        return err_enum(e)
+
+
 def patterns(db):
     keys = list(db.register_keys)
-    rel = db.list(display=False, relative=True)
+    rel = relative_names(db)
+    if not isinstance(rel, list) or len(rel) != len(keys):
+        rel = keys
     names = [short(k) for k in keys]
     pats = set()
     for k, r, n in zip(keys, rel, names):
@@ -274,6 +326,19 @@ def retrieval(chk, db, vals, keys, inp, names, listed):
     if got != want:
         chk.fail("retrieval of several series by names (getm keys) returns exactly the listed series, ordered by pattern and then by "
                  "registration order", inp, want, got, clause="getm-order")
+    # short names (fullkey=False): one entry per selected series — none lost — each named by the end of its own key, holding its data
+    try:
+        short = db.getm(names=names, fullkey=False, store=False)
+        sk = list(short.keys())
+        bad = len(sk) != len(want) or any(not k.endswith(r) or r == "" for r, k in zip(sk, want))
+        if not bad and vals is not None:
+            bad = first_values(list(short.values())) != [vals[keys.index(k)] for k in want]
+        obs = sk
+    except Exception as e:
+        bad, obs = True, err_enum(e)
+    if bad:
+        chk.fail("retrieval of several series by names with short names (getm fullkey=False) returns one entry per listed series, each "
+                 "named by the trailing part of its own key and holding its data", inp, want, obs, clause="getm-short")
     if vals is not None:
         exp = [vals[keys.index(k)] for k in want]
         try:
@@ -286,6 +351,18 @@ def retrieval(chk, db, vals, keys, inp, names, listed):
 
 
 def evaluate(chk, db, vals, base, what, arg, reply=None, rel=False):
+    """one query; an exception of the implementation outside the places where the property names an error is a failing clause"""
+    try:
+        _evaluate(chk, db, vals, base, what, arg, reply, rel)
+    except Exception as e:
+        inp = dict(base, keys=list(db.register_keys), what=what, arg=arg)
+        if rel:
+            inp["rel"] = True
+        chk.fail("selecting / listing by names returns the matching registered series (it does not raise)", inp, "a list of keys",
+                 "%s: %s" % (err_enum(e), e), clause="raises")
+
+
+def _evaluate(chk, db, vals, base, what, arg, reply=None, rel=False):
     """correspondence with the model reply (when given) and the property's clauses on the real database for one query"""
     keys = list(db.register_keys)
     inp = dict(base, keys=keys, what=what, arg=arg)
@@ -297,9 +374,13 @@ def evaluate(chk, db, vals, base, what, arg, reply=None, rel=False):
         if o is not None and unhx(o.split()[1]) != db.common:
             chk.disagree("nm.common", inp, unhx(o.split()[1]), db.common)
     elif what == "rel":
-        im = db.list(display=False, relative=True)
-        if o is not None and unhxlist(o.split()[1]) != im:
-            chk.disagree("nm.list(relative)", inp, unhxlist(o.split()[1]), im)
+        im = relative_names(db)
+        # (the model's relpath has the precondition "path non-empty"; an implementation error is reported by the clause below)
+        if o is not None and isinstance(im, list) and (not o.startswith("ok") or unhxlist(o.split()[1]) != im):
+            chk.disagree("nm.list(relative)", inp, unhxlist(o.split()[1]) if o.startswith("ok") else o, im)
+        if not isinstance(im, list) or len(im) != len(keys):
+            chk.fail("every registered series has a listed relative name (the relative listing has one entry per registered series)",
+                     inp, len(keys), im if not isinstance(im, list) else len(im), clause="self-relative")
     elif what == "none":
         im = db.list(display=False)
         if o is not None and unhxlist(o.split()[1]) != im:
@@ -327,6 +408,9 @@ def evaluate(chk, db, vals, base, what, arg, reply=None, rel=False):
             if im != ref:
                 chk.fail("selection returns exactly the registered keys matching the shell-style pattern with brackets, "
                          "parentheses and carets literal, in registration order", inp, ref, im, clause="literal")
+            if arg == "*" and im != keys:
+                chk.fail("the pattern '*' matches every name: it selects all registered series, in registration order", inp, keys, im,
+                         clause="star-all")
             retrieval(chk, db, vals, keys, inp, arg, im)
         elif not rel:
             chk.nontriv((tuple(keys), tuple(arg)))
@@ -373,11 +457,14 @@ def evaluate(chk, db, vals, base, what, arg, reply=None, rel=False):
     elif what == "self":
         # arg = position of the series in registration order
         k = keys[arg]
-        r = db.list(display=False, relative=True)[arg]
+        rl = relative_names(db)
+        r = rl[arg] if isinstance(rl, list) and len(rl) == len(keys) else None
         inp = dict(base, keys=keys, what=what, arg=arg, key=k, relative=r)
         got = db.list(names=k, display=False)
         if got != [k]:
             chk.fail("every registered series is selected unambiguously by its full key", inp, [k], got, clause="self-full")
+        if r is None:
+            return                                  # reported by the "rel" query of this state
         got = db.list(names=r, display=False)
         if got != [k]:
             chk.fail("every registered series is selected unambiguously by its own listed relative name", inp, [k], got,
@@ -494,7 +581,9 @@ def f18_shape(f):
     if f.get("clause") != "self-relative":
         return False
     inp = f["input"]
-    r, k = inp["relative"], inp["key"]
+    r, k = inp.get("relative"), inp.get("key")
+    if r is None or k is None:
+        return False
     others = [x for x in inp["keys"] if x != k and x.endswith("/" + r)]
     return bool(others) and sorted(f["observed"]) == sorted([k] + others)
 
@@ -502,7 +591,7 @@ def f18_shape(f):
 def f22_shape(f):
     """F22: the series name itself starts with '[' — the bracket-aware path helpers split the key at its first '[' and take
     the whole name for a unit bracket, so the listed relative name is '.<name>' / '<dir><name>' and selects nothing"""
-    if f.get("clause") != "self-relative":
+    if f.get("clause") != "self-relative" or "key" not in f["input"]:
         return False
     k = f["input"]["key"]
     name = k.split(".pkl/")[-1] if ".pkl/" in k else os.path.basename(k)
